@@ -12,6 +12,8 @@ use std::collections::{BTreeMap, BTreeSet};
 const PATH_PARTS: &[&str] = &[
     "src", "a", "b.txt", "my file.rs", "tab\tname", "q\"uote", "'s'", "-dash", " lead", "trail ", "unié", "中文", "🙂", "x y z", "---",
     "\"base_commit_sha\":\"x\"", "nl\nname", "  two", "dir with sp", "#hash", "0123456789abcdef", "a\\b", "{", "}", "--- ", "  1234567890abcdef 1-2",
+    // names that are quoted by the serializer (whitespace) and themselves begin / end with a double quote
+    "\"quoted\" title.txt", "end quote\"", "\"start q", "\"", "\"\"", "a \"b\" c", "\" \"",
 ];
 const HASHES: &[&str] = &["0123456789abcdef", "aaaaaaaaaaaaaaaa", "abc1234", "deadbeefdeadbeef", "ffffffffffffffff", "0000000"];
 
